@@ -206,6 +206,54 @@ Section Instances.
       + apply map2_wr_len. now rewrite ige_enc_spec_length, map_length.
   Qed.
 
+  (* CFB and OFB need no relation between E and D *)
+  Lemma cfb_st_roundtrip s (ps : list block) : length s = bs -> all_len bs ps -> cfb_dec_st E s (cfb_enc_st E s ps) = ps.
+  Proof.
+    intros Hs Hp. revert s Hs. induction Hp as [|p ps Hpl _ IH]; intros s Hs; [reflexivity|].
+    cbn [cfb_enc_st cfb_dec_st]. rewrite xorb_cancel_r by lia. f_equal. apply IH. apply E_len.
+    rewrite xorb_length, Hpl, Hs. apply Nat.min_id.
+  Qed.
+
+  Lemma cfb_enc_st_all_len s (ps : list block) : length s = bs -> all_len bs ps -> all_len bs (cfb_enc_st E s ps).
+  Proof.
+    intros Hs Hp. revert s Hs. induction Hp as [|p ps Hpl _ IH]; intros s Hs; cbn [cfb_enc_st]; constructor.
+    - rewrite xorb_length, Hpl, Hs. apply Nat.min_id.
+    - apply IH. apply E_len. rewrite xorb_length, Hpl, Hs. apply Nat.min_id.
+  Qed.
+
+  Lemma ofb_spec_all_len s (ps : list block) : length s = bs -> all_len bs ps -> all_len bs (ofb_spec E s ps).
+  Proof.
+    intros Hs Hp. revert s Hs. induction Hp as [|p ps Hpl _ IH]; intros s Hs; cbn [ofb_spec]; constructor.
+    - rewrite xorb_length, Hpl, E_len by auto. apply Nat.min_id.
+    - apply IH. now apply E_len.
+  Qed.
+
+  Lemma cfb_pair_ok s x : length s = bs -> pair_ok KCfbE KCfbD (s, x).
+  Proof.
+    intros Hs. split.
+    - intros cs cs2 Hin H2. cbn [bm_single] in *. rewrite fold_lift1, cfb_dec_fold. rewrite fold_lift1, cfb_enc_fold in H2.
+      cbn [snd] in *. rewrite map_cout_wr in H2 by (now rewrite cfb_enc_st_length, map_length).
+      rewrite map_cout_wr by (now rewrite cfb_dec_st_length, map_length).
+      rewrite H2. now apply cfb_st_roundtrip.
+    - intros cs Hin. cbn [bm_single]. rewrite fold_lift1, cfb_enc_fold. cbn [snd].
+      rewrite map_cout_wr by (now rewrite cfb_enc_st_length, map_length). split.
+      + now apply cfb_enc_st_all_len.
+      + apply map2_wr_len. now rewrite cfb_enc_st_length, map_length.
+  Qed.
+
+  Lemma ofb_pair_ok iv x : length iv = bs -> pair_ok KOfbE KOfbD (iv, x).
+  Proof.
+    intros Hiv. split.
+    - intros cs cs2 Hin H2. cbn [bm_single] in *. rewrite fold_lift1, ofb_dec_fold. rewrite fold_lift1, ofb_enc_fold in H2.
+      cbn [snd] in *. rewrite map_cout_wr in H2 by (now rewrite ofb_spec_length, map_length).
+      rewrite map_cout_wr by (now rewrite ofb_spec_length, map_length).
+      rewrite H2. apply (ofb_involutive bs E); auto.
+    - intros cs Hin. cbn [bm_single]. rewrite fold_lift1, ofb_enc_fold. cbn [snd].
+      rewrite map_cout_wr by (now rewrite ofb_spec_length, map_length). split.
+      + now apply ofb_spec_all_len.
+      + apply map2_wr_len. now rewrite ofb_spec_length, map_length.
+  Qed.
+
   (* PKCS#7-padded encryption then decryption, any message, each side in place or buffer-to-buffer *)
   Theorem padded_roundtrip ke kd st (al : bool) (inb outb : list N) :
     pair_ok ke kd st ->
